@@ -14,6 +14,20 @@ CLAIMS = {
         note=A1 + 'content_factor minimality is not covered.',
         technique='contract-based deductive verification (Verus) of mechanically extracted Rust functions; F64 ideal-arithmetic model',
         ref='DESIGN 6 C16'),
+    'C01': dict(
+        text='Deductive proof (Verus, unbounded: every term list, every id, every state) that Linear/Quadratic/Polynomial/Function::evaluate, extracted from the working tree, '
+             'return Ok exactly when every occurring id has a value, the set of occurring ids, and - for finite coefficients and values - exactly the real value sum coef*prod(x) '
+             'of the message as written on the wire (any order, repeats, zero coefficients, any triangle, absent linear part, unset oneof = 0).',
+        note=A1 + 'Bit-exactness/rounding bounds are abstracted by A1.',
+        technique='contract-based deductive verification (Verus) of mechanically extracted Rust functions; loop invariants over index-recursive value specs',
+        ref='DESIGN 6 C01'),
+    'C05': dict(
+        text='Deductive proof (Verus) of the real text of Instance::evaluate, Constraint/RemovedConstraint::evaluate, EvaluatedConstraint::is_feasible, Instance::{get_bounds,check_bound,objective}, '
+             'Constraint::function, TryFrom<&DecisionVariable> for Bound and their callees: objective value, every active then every removed constraint exactly once with copied metadata and removal reason, '
+             'both feasibility flags by the 1e-6 rule, bound check with 1e-7, reported state = given + fixed + dependent + nearest-to-zero fill.',
+        note=A1 + 'eval_dependencies is an assumed callee contract here (decided in C04). Thresholds are real-valued under A1.',
+        technique='contract-based deductive verification (Verus) of mechanically extracted Rust functions',
+        ref='DESIGN 6 C05'),
 }
 NA = {
     'C06': 'evaluate_samples is built from FnMut closures capturing &mut state and iterator adapters over HashMap<OrderedFloat,..>: rejected by Verus, far beyond measured Kani limits; leaf lookups alone do not decide the property (DESIGN 6 C06)',
